@@ -302,20 +302,22 @@ inductive Verdict
   | crash (site : String)
   deriving Repr
 
+def parseErrs (mm : MM) : List Err := mm.constants.flatMap parseConst
+
+def verifyErrs (mm : MM) : List Err :=
+  parseVerify mm.constants ++ verifyItemTypes (mm.enums.map (·.name) ++ mm.classes) mm.constants
+
 /-- The front end, as far as constants, constant sets and enumerations are concerned. -/
 def frontEnd (mm : MM) : Verdict :=
   if !mm.enums.all enumNamesUnique then .crash "parse.Enumeration.__init__" else
-  let e1 := mm.constants.flatMap parseConst
-  if !e1.isEmpty then .rejected .parse e1 else
-  let e2 := parseVerify mm.constants ++ verifyItemTypes (mm.enums.map (·.name) ++ mm.classes) mm.constants
-  if !e2.isEmpty then .rejected .verify e2 else
+  if !(parseErrs mm).isEmpty then .rejected .parse (parseErrs mm) else
+  if !(verifyErrs mm).isEmpty then .rejected .verify (verifyErrs mm) else
   if !mm.enums.all enumValuesUnique then .crash "intermediate.Enumeration.__init__" else
   match firstPass mm.enums mm.constants with
   | .crash s => .crash s
   | .err es => .rejected .translate es
   | .ok table =>
-    let e3 := secondPass table
-    if !e3.isEmpty then .rejected .translate e3 else .accepted table
+    if !(secondPass table).isEmpty then .rejected .translate (secondPass table) else .accepted table
 
 /-! ## The generated Python SDK after import -/
 
